@@ -4,8 +4,8 @@ set -e
 cd "$(dirname "$0")"
 export PYTHONPATH=/repo/src PYTHONDONTWRITEBYTECODE=1 PYTHONHASHSEED=0
 /venv/bin/python translator/gen_tables.py
+python3 tools/gen_coqproject.py
 cd coq
-coq_makefile -f _CoqProject -o Makefile >/dev/null 2>&1
 timeout 3000 make -k -j16 2>&1 | grep -v '^Warning\|^COQDEP' | tail -40
 cd extract
 timeout 600 coqc -Q ../theories RPFT Extract.v >/dev/null
